@@ -132,9 +132,30 @@ pub struct Words {
     pub trailing: bool,
 }
 
+/// What separates words: the ASCII white space characters space, tab, line feed, form feed and
+/// carriage return (plain TeX: catcode 10 and end of line). Nothing else does: U+000B, U+0085,
+/// U+00A0, U+2003, U+2028, U+3000 … are characters of a word like any other.
+pub fn is_separator(c: char) -> bool {
+    matches!(c, ' ' | '\t' | '\n' | '\x0c' | '\r')
+}
+
 pub fn split_words(text: &str) -> Words {
-    let words: Vec<String> = text.split(' ').filter(|w| !w.is_empty()).map(|w| w.to_string()).collect();
-    Words { leading: text.starts_with(' '), trailing: text.ends_with(' ') && !words.is_empty(), words }
+    let words: Vec<String> = text.split(is_separator).filter(|w| !w.is_empty()).map(|w| w.to_string()).collect();
+    Words { leading: text.starts_with(is_separator), trailing: text.ends_with(is_separator) && !words.is_empty(), words }
+}
+
+/// `got` spells `word` when it is `word` with nothing removed except characters that are not in
+/// the font (TeX drops those, §1036 "Missing character"); a character that is in the font must appear.
+pub fn spells(word: &str, got: &str, in_font: &dyn Fn(char) -> bool) -> bool {
+    let mut g = got.chars().peekable();
+    for c in word.chars() {
+        if g.peek() == Some(&c) {
+            g.next();
+        } else if in_font(c) {
+            return false;
+        }
+    }
+    g.next().is_none()
 }
 
 /// The glue items of the horizontal list built from the text, in order (a paragraph starts with
@@ -754,6 +775,17 @@ mod tests {
     }
     fn gl() -> Item {
         Item::Glue(Spec::new(2 * 65536, 65536, 65536))
+    }
+    #[test]
+    fn words_and_spelling() {
+        let w = split_words("\ta\u{a0}b \n\u{b}c\x0c");
+        assert_eq!((w.leading, w.trailing, w.words.clone()), (true, true, vec!["a\u{a0}b".to_string(), "\u{b}c".to_string()]));
+        let inf = |c: char| c.is_ascii();
+        assert!(spells("a\u{a0}b", "a\u{a0}b", &inf));
+        assert!(spells("a\u{a0}b", "ab", &inf));
+        assert!(!spells("a\u{a0}b", "a", &inf));
+        assert!(!spells("ab", "abb", &inf));
+        assert!(!spells("ab", "ba", &inf));
     }
     #[test]
     fn sf() {
